@@ -518,6 +518,23 @@ static void push_args2(Node *args, bool first_pass) {
   default:
     push();
   }
+
+  // Arguments are pushed last to first, so the padding that precedes
+  // this argument in memory is pushed after it.
+  if (args->stack_pad) {
+    println("  sub $8, %%rsp");
+    depth++;
+  }
+}
+
+// The psABI aligns an argument in memory to 16 bytes if its type
+// requires that (long double, aggregates with such a member).
+static int stack_arg_slots(Node *arg, int stack) {
+  if (arg->ty->align >= 16 && stack % 2 == 1) {
+    arg->stack_pad = true;
+    stack++;
+  }
+  return stack + align_to(arg->ty->size, 8) / 8;
 }
 
 // Load function call arguments. Arguments are already evaluated and
@@ -556,7 +573,7 @@ static int push_args(Node *node) {
     case TY_UNION:
       if (ty->size > 16) {
         arg->pass_by_stack = true;
-        stack += align_to(ty->size, 8) / 8;
+        stack = stack_arg_slots(arg, stack);
       } else {
         bool two = ty->size > 8;
         bool fp1 = has_flonum1(ty);
@@ -568,7 +585,7 @@ static int push_args(Node *node) {
           gp = gp + !fp1 + gp2;
         } else {
           arg->pass_by_stack = true;
-          stack += align_to(ty->size, 8) / 8;
+          stack = stack_arg_slots(arg, stack);
         }
       }
       break;
@@ -581,7 +598,7 @@ static int push_args(Node *node) {
       break;
     case TY_LDOUBLE:
       arg->pass_by_stack = true;
-      stack += 2;
+      stack = stack_arg_slots(arg, stack);
       break;
     default:
       if (gp++ >= GP_MAX) {
@@ -1426,7 +1443,7 @@ static void assign_lvar_offsets(Obj *prog) {
           continue;
       }
 
-      top = align_to(top, 8);
+      top = align_to(top, MAX(8, ty->align));
       var->offset = top;
       top += var->ty->size;
     }
